@@ -1,1 +1,347 @@
-//! Generators for the digest monitors.
+//! Generators for the digest monitor (C13): the harness's own `Read`
+//! implementation that realises a *read schedule* (where reads are cut, where
+//! `Interrupted` or a hard error is injected), the schedule builders, and the
+//! algorithm-name variants.
+
+use crate::rng::Rng;
+use std::io::{self, Read};
+
+// ---------------------------------------------------------------------------
+// The scheduled reader
+// ---------------------------------------------------------------------------
+
+#[derive(Clone, Copy, Debug, PartialEq, Eq)]
+pub enum Step {
+    /// Serve data, never reading across this absolute offset.
+    Upto(usize),
+    /// The next read returns `ErrorKind::Interrupted`.
+    Intr,
+    /// The next read returns a hard error (`ErrorKind::Other`).
+    Fail,
+}
+
+#[derive(Clone, Debug)]
+pub struct Schedule {
+    /// Evidence family: whole, byte1, short, marker, newline, intr, fault.
+    pub family: &'static str,
+    /// Placement tag for the evidence matrix (interrupt kind), else "".
+    pub tag: &'static str,
+    /// Human-readable detail for failure messages.
+    pub label: String,
+    /// Upper bound on the bytes returned by one read.
+    pub cap: usize,
+    pub steps: Vec<Step>,
+}
+
+impl Schedule {
+    pub fn new(family: &'static str, label: impl Into<String>) -> Schedule {
+        Schedule { family, tag: "", label: label.into(), cap: usize::MAX, steps: vec![] }
+    }
+    pub fn reader<'a>(&'a self, data: &'a [u8]) -> SchedReader<'a> {
+        SchedReader {
+            data,
+            pos: 0,
+            steps: &self.steps,
+            i: 0,
+            cap: self.cap,
+            reads: 0,
+            eof_reads: 0,
+            intr_served: 0,
+            fail_served: 0,
+        }
+    }
+    pub fn describe(&self) -> String {
+        format!("{} [{}]", self.family, self.label)
+    }
+}
+
+/// A reader over `data` that follows a script.  After the script is
+/// exhausted the rest of the data is served (bounded by `cap` and the
+/// caller's buffer) and then end-of-file is signalled for ever.  A hard error
+/// is *not* sticky: a caller that wrongly carries on reading gets the rest of
+/// the data, so that "hashed past the error" shows up as an `Ok` result
+/// instead of as a stall.
+pub struct SchedReader<'a> {
+    data: &'a [u8],
+    pos: usize,
+    steps: &'a [Step],
+    i: usize,
+    cap: usize,
+    pub reads: u64,
+    pub eof_reads: u64,
+    pub intr_served: u64,
+    pub fail_served: u64,
+}
+
+impl SchedReader<'_> {
+    fn serve(&mut self, buf: &mut [u8], limit: usize) -> usize {
+        let n = buf.len().min(limit - self.pos).min(self.cap);
+        buf[..n].copy_from_slice(&self.data[self.pos..self.pos + n]);
+        self.pos += n;
+        n
+    }
+    pub fn script_done(&self) -> bool {
+        self.i >= self.steps.len()
+    }
+    pub fn consumed(&self) -> usize {
+        self.pos
+    }
+}
+
+impl Read for SchedReader<'_> {
+    fn read(&mut self, buf: &mut [u8]) -> io::Result<usize> {
+        self.reads += 1;
+        if buf.is_empty() {
+            return Ok(0);
+        }
+        loop {
+            match self.steps.get(self.i) {
+                Some(Step::Intr) => {
+                    self.i += 1;
+                    self.intr_served += 1;
+                    return Err(io::Error::new(io::ErrorKind::Interrupted, "pvh: injected EINTR"));
+                }
+                Some(Step::Fail) => {
+                    self.i += 1;
+                    self.fail_served += 1;
+                    return Err(io::Error::new(io::ErrorKind::Other, "pvh: injected hard read error"));
+                }
+                Some(Step::Upto(p)) => {
+                    let p = (*p).min(self.data.len());
+                    if self.pos >= p {
+                        self.i += 1;
+                        continue;
+                    }
+                    let n = self.serve(buf, p);
+                    if self.pos >= p {
+                        self.i += 1;
+                    }
+                    return Ok(n);
+                }
+                None => {
+                    if self.pos < self.data.len() {
+                        let end = self.data.len();
+                        return Ok(self.serve(buf, end));
+                    }
+                    self.eof_reads += 1;
+                    return Ok(0);
+                }
+            }
+        }
+    }
+}
+
+// ---------------------------------------------------------------------------
+// Schedule builders.  All of them depend only on the input bytes and the rng.
+// ---------------------------------------------------------------------------
+
+fn cuts_to_steps(cuts: &[usize]) -> Vec<Step> {
+    cuts.iter().map(|&c| Step::Upto(c)).collect()
+}
+
+pub fn whole() -> Schedule {
+    Schedule::new("whole", "as much as the caller's buffer takes")
+}
+
+pub fn byte1() -> Schedule {
+    let mut s = Schedule::new("byte1", "1-byte reads");
+    s.cap = 1;
+    s
+}
+
+/// Sorted, de-duplicated cut offsets strictly inside 0..len with random gaps
+/// of 1..=maxgap.
+pub fn random_cuts(r: &mut Rng, len: usize, maxgap: usize) -> Vec<usize> {
+    let mut cuts = vec![];
+    let mut p = 0usize;
+    loop {
+        p += r.range(1, maxgap.max(1));
+        if p >= len {
+            break;
+        }
+        cuts.push(p);
+    }
+    cuts
+}
+
+pub fn short(r: &mut Rng, len: usize, maxgap: usize) -> Schedule {
+    let cuts = random_cuts(r, len, maxgap);
+    let mut s = Schedule::new("short", format!("random short reads, gaps 1..={maxgap}, {} cuts", cuts.len()));
+    s.steps = cuts_to_steps(&cuts);
+    s
+}
+
+/// Cut every marker occurrence `off` bytes after its start (1..=6), or at all
+/// six inner offsets when `off` is 0.
+pub fn marker(markers: &[usize], off: usize) -> Schedule {
+    let mut cuts: Vec<usize> = vec![];
+    for &m in markers {
+        if off == 0 {
+            cuts.extend((1..=6).map(|k| m + k));
+        } else {
+            cuts.push(m + off);
+        }
+    }
+    cuts.sort_unstable();
+    cuts.dedup();
+    let what = if off == 0 { "every inner offset".to_string() } else { format!("split {off}|{}", 7 - off) };
+    let mut s = Schedule::new("marker", format!("cut inside each of {} '$NetBSD': {what}", markers.len()));
+    s.steps = cuts_to_steps(&cuts);
+    s
+}
+
+/// Cuts on the newlines: mode 0 = just before each LF, 1 = just after, 2 = both.
+pub fn newline(newlines: &[usize], mode: usize) -> Schedule {
+    let mut cuts: Vec<usize> = vec![];
+    for &n in newlines {
+        if mode == 0 || mode == 2 {
+            cuts.push(n);
+        }
+        if mode == 1 || mode == 2 {
+            cuts.push(n + 1);
+        }
+    }
+    cuts.retain(|&c| c > 0);
+    cuts.sort_unstable();
+    cuts.dedup();
+    let what = ["before", "after", "before and after"][mode];
+    let mut s = Schedule::new("newline", format!("cut {what} each of {} LF", newlines.len()));
+    s.steps = cuts_to_steps(&cuts);
+    s
+}
+
+/// Cuts used by the interrupt / fault workloads: inside markers and on
+/// newlines when there are any (bounded), otherwise random.
+pub fn interesting_cuts(
+    r: &mut Rng,
+    len: usize,
+    markers: &[usize],
+    newlines: &[usize],
+    max: usize,
+) -> Vec<usize> {
+    let mut pool: Vec<usize> = vec![];
+    for &m in markers {
+        pool.push(m + r.range(1, 6));
+    }
+    for &n in newlines {
+        pool.push(if r.chance(1, 2) { n } else { n + 1 });
+    }
+    for c in random_cuts(r, len, (len / 3).max(1)) {
+        pool.push(c);
+    }
+    pool.retain(|&c| c > 0 && c < len);
+    r.shuffle(&mut pool);
+    pool.truncate(max);
+    pool.sort_unstable();
+    pool.dedup();
+    pool
+}
+
+/// `Interrupted` placements.  kind: 0 before any data, 1 between the data
+/// reads, 2 after all data but before EOF is signalled, 3 everywhere and
+/// repeated.
+pub const INTR_KINDS: [&str; 4] = ["before", "between", "after", "many"];
+const INTR_TEXT: [&str; 4] = [
+    "before any data",
+    "between the data reads",
+    "after all data, before EOF",
+    "repeatedly before, between and after the data reads",
+];
+
+pub fn interrupted(kind: usize, cuts: &[usize], len: usize) -> Schedule {
+    let mut steps = vec![];
+    match kind {
+        0 => {
+            steps.push(Step::Intr);
+            steps.extend(cuts_to_steps(cuts));
+        }
+        1 => {
+            for &c in cuts {
+                steps.push(Step::Upto(c));
+                steps.push(Step::Intr);
+            }
+        }
+        2 => {
+            steps.extend(cuts_to_steps(cuts));
+            steps.push(Step::Upto(len));
+            steps.push(Step::Intr);
+        }
+        _ => {
+            steps.extend([Step::Intr; 3]);
+            for &c in cuts {
+                steps.push(Step::Upto(c));
+                steps.extend([Step::Intr; 2]);
+            }
+            steps.push(Step::Upto(len));
+            steps.extend([Step::Intr; 3]);
+        }
+    }
+    let mut s = Schedule::new("intr", format!("Interrupted {}, cuts at {:?}", INTR_TEXT[kind.min(3)], short_list(cuts)));
+    s.steps = steps;
+    s.tag = INTR_KINDS[kind.min(3)];
+    s
+}
+
+/// A hard error after `k` of the chunks delimited by `cuts` (k = 0: before
+/// any data; k = cuts.len()+1: after all data, before EOF is signalled).
+pub fn fault(k: usize, cuts: &[usize], len: usize) -> Schedule {
+    let mut bounds: Vec<usize> = cuts.to_vec();
+    bounds.push(len);
+    let mut steps = vec![];
+    for &b in bounds.iter().take(k) {
+        steps.push(Step::Upto(b));
+    }
+    steps.push(Step::Fail);
+    for &b in bounds.iter().skip(k) {
+        steps.push(Step::Upto(b));
+    }
+    let mut s = Schedule::new(
+        "fault",
+        format!("hard error after chunk {k} of {} (chunk ends {:?})", bounds.len(), short_list(&bounds)),
+    );
+    s.steps = steps;
+    s
+}
+
+/// Placement class of `fault(k, cuts, len)` for the evidence matrix.
+pub fn fault_class(k: usize, cuts: &[usize], len: usize) -> &'static str {
+    if len == 0 {
+        "empty-input"
+    } else if k == 0 {
+        "first"
+    } else if k == cuts.len() + 1 {
+        "after-data"
+    } else {
+        "middle"
+    }
+}
+
+fn short_list(v: &[usize]) -> Vec<usize> {
+    v.iter().copied().take(12).collect()
+}
+
+// ---------------------------------------------------------------------------
+// Algorithm names
+// ---------------------------------------------------------------------------
+
+/// Every ASCII letter-case variant of `name` (2^letters strings).
+pub fn case_variants(name: &str) -> Vec<String> {
+    let letters: Vec<usize> =
+        name.bytes().enumerate().filter(|(_, b)| b.is_ascii_alphabetic()).map(|(i, _)| i).collect();
+    let mut out = Vec::with_capacity(1 << letters.len());
+    for mask in 0u32..(1u32 << letters.len()) {
+        let mut b = name.as_bytes().to_vec();
+        for (bit, &i) in letters.iter().enumerate() {
+            b[i] = if mask >> bit & 1 == 1 { b[i].to_ascii_uppercase() } else { b[i].to_ascii_lowercase() };
+        }
+        out.push(String::from_utf8(b).expect("harness: ASCII stays ASCII"));
+    }
+    out
+}
+
+/// Strings that are not one of the six names under any reading of
+/// "case-insensitively" (ASCII only; non-ASCII folding is excluded, DESIGN 4).
+pub const NOT_NAMES: [&str; 16] = [
+    "SHA-1", "SHA", "MD55", "", " sha1", "sha1 ", "sha 1", "blake2", "moo", "md", "sha2566", "xsha1",
+    "sha1\n", "\tmd5", "rmd16", "BLAKE2s,MD5",
+];
